@@ -941,6 +941,25 @@ def line_comment(rng):
     return prefix + body + trailing
 
 
+def directive_text(rng):
+    """one compiler / conditional directive exploring the decision space of comment_contents.rs: format_compiler_directive:
+    both openers, names in every case (words, single letters, switch lists `R+,Q-`, `Z4`), every separator after the name, a
+    rest in which the name's own spelling RECURS (same case, other case, inside an identifier, inside a quoted string), closed or not"""
+    opener, closer = rng.choice([("{$", "}"), ("{$", "}"), ("(*$", "*)")])
+    word = rng.choice(["region", "if", "ifdef", "ifndef", "define", "undef", "include", "i", "r", "warn", "message", "endif", "else", "elseif", "ifopt", "endregion", "hints", "m", "z4", "a8"])
+    case = rng.random()
+    name = word if case < 0.5 else word.upper() if case < 0.65 else word.capitalize() if case < 0.8 else "".join(ch.upper() if rng.random() < 0.5 else ch for ch in word)
+    c = rng.random()
+    if c < 0.2:
+        name = ",".join(rng.choice("rqoitw") + rng.choice("+-") for _ in range(rng.randrange(1, 4)))   # switch list
+    sep = rng.choice([" ", " ", "  ", "\t", "", "+", "-", ",", "\n"])
+    other = name.swapcase() if name.swapcase() != name else name
+    rest = rng.choice(["", "", "%s" % name, "'%s: public api'" % name, "defined(ver%sy_inputs) or declared(Not%sy)" % (name, name), "%s_traces" % name, "x%sx %s" % (name, name),
+                       "%s" % other, "'%s'" % other, "Foo %s Bar" % name, "é %s" % name, "a.inc", "*.res", "SYMBOL_PLATFORM OFF", "16384,1048576"])
+    end = closer if rng.random() < 0.93 else ""
+    return opener + name + sep + rest + end
+
+
 def case_labels_program(rng):
     """a routine whose case statement has arms with SEVERAL labels followed by `begin` (the label list can
     wrap while `begin` continues the last label's line) or by a simple statement; returns (text, header
